@@ -99,25 +99,25 @@ File(o, c, s) == [owner |-> o, c |-> c, s |-> s]
 InitDir(c) == [p \in {f.p : f \in Range(c.init)} |->
                  File("user", (CHOOSE f \in Range(c.init) : f.p = p).c, 0)]
 
-Op(k, d, p) == [k |-> k, d |-> d, p |-> p]
+Op(k, d, p) == [k |-> k, d |-> d, p |-> p, same |-> FALSE]
 Log(o) == IF KeepHist THEN Append(hist, o) ELSE hist
 NoPath == <<"-">>
 
 ---------------------------------------------------------------------------
 \* a generation begins: the list of directories to remove is fixed now
-Begin(k, d) ==
+Begin(k, d, same) ==
   /\ pc = "idle" /\ clock < MaxOps
   /\ d \in 1..NDesigns
   /\ cmd' = k /\ design' = d /\ clock' = clock + 1
   /\ cleanup' = IF k = "gen" /\ "gen.no_wipe" \notin Deviations THEN GenSubDirs(dir) ELSE {}
   /\ before' = dir
   /\ pc' = "wipe"
-  /\ hist' = Log(Op(k, d, NoPath))
+  /\ hist' = Log([Op(k, d, NoPath) EXCEPT !.same = same])
   /\ UNCHANGED <<cfg, dir, todo, edits, last, wrote>>
 
 \* the goa command line: a new process
 Start(k, d) ==
-  /\ Begin(k, d)
+  /\ Begin(k, d, FALSE)
   /\ nonce' \in Nonces /\ gens' = 0
   /\ tmp' = {<<"goa" \o ToString(nonce')>>}
 
@@ -125,7 +125,7 @@ Start(k, d) ==
 \* it removes the sub-directories of gen/ itself, as the command line would)
 Again(k, d) ==
   /\ last.k \in {"gen", "example"} /\ d = design
-  /\ Begin(k, d)
+  /\ Begin(k, d, TRUE)
   /\ tmp' = {} /\ UNCHANGED <<nonce, gens>>
 
 Wiped(p) == (InGenSub(p) /\ p[2] \in cleanup)
